@@ -106,12 +106,34 @@ def run(ck):
         what = frw.head_shadow_rewrite(files, info, ["rename_top", "rename_nested", "move_top"][(i // 3 + i) % 3])
         pairs.append(dict(a=a, b=files, top_a=list(top), top_b=list(top), rws=[("head_shadow", what)],
                           origin=f"head-shadow#{i}"))
+    # two different types of one short name, both used as `Name[n]`: rename / move one, or swap the
+    # two messages
+    for i in range(fs.scaled(ck.n(6, 60))):
+        rng = random.Random(f"C12:twin:{ck.seed}:{i}")
+        files, top, info = fg.twin_short_names(rng, variant="import" if i % 3 == 2 else "nested")
+        a = copy.deepcopy(files)
+        what = frw.twin_rewrite(files, info, ["rename_nested", "swap", "move_top"][i % 3])
+        pairs.append(dict(a=a, b=files, top_a=list(top), top_b=list(top), rws=[("twin_short_names", what)],
+                          origin=f"twin#{i}"))
+    # the name an import is bound to does not matter, also when it equals another file's proto name
+    for i in range(fs.scaled(ck.n(3, 30))):
+        rng = random.Random(f"C12:aliasclash:{ck.seed}:{i}")
+        files, top, info = fg.alias_clash_imports(rng)
+        b = copy.deepcopy(files)
+        imp = b["rootp.bitproto"][1]
+        new = rng.choice(["metric", "zother", "m2"])
+        for x in b["rootp.bitproto"]:
+            frw._retarget(x, imp[2], [new])
+        imp[2] = new
+        pairs.append(dict(a=files, b=b, top_a=list(top), top_b=list(top),
+                          rws=[("rename_import_as", f"import bound to the other file's proto name renamed to {new}")],
+                          origin=f"alias-clash#{i}"))
     # a literal array capacity against unparenthesised operator chains of equal value
     for i in range(fs.scaled(ck.n(6, 60))):
         rng = random.Random(f"C12:chain:{ck.seed}:{i}")
         n = rng.choice([1, 2, 3, 5, 7, 8, 13])
         chains = frw.equal_valued_chains(n, rng)
-        e = chains[0] if i % 2 == 0 else rng.choice(chains)
+        e = chains[0] if i % 3 == 0 else chains[-1] if i % 3 == 1 else rng.choice(chains)   # [-1]: operands beyond 2^53
         if i == 0:
             n, e = 7, ["div", ["mul", ["int", 2], ["int", 7]], ["int", 2]]
         body = [["field", None, ["arr", ["byte"], ["lit", n], False], "data", 1], ["field", None, ["single", ["uint", 7]], "t", 2]]
